@@ -8,6 +8,10 @@ from rules import compile_roles as cr
 from rules.C07 import iter_source, _key_is
 
 EXPLANATION = (
+    "Typestate analysis of compile() (rule C09.T1): the statements of compile() are interpreted over an abstract "
+    "state that tracks one arbitrary module through every local map, with every component call returning or raising "
+    "any package error class, every option setting and every iteration order; invariants are evaluated at the "
+    "component calls and at every return (see rules/compile_ts.py INV). "
     "CFG rules on MibCompiler.compile(): a guard test dominates the single putData call; evaluated as a boolean "
     "function of the atoms A = 'FAILED map non-empty' and B = options.get('ignoreErrors') (copy-propagated locals "
     "followed, nested tests combined by pruned reachability) the writer is unreachable exactly for (A, not B) and "
@@ -21,7 +25,7 @@ ASSUMPTIONS = [
 LEVEL_TEXT = ("Structural decision on every path of compile(): the abort guard's truth table and dominance, the "
               "unprocessed marking, and the write loop's coverage. This property is essentially structural, so the "
               "static rules decide the mechanism completely; values of the FAILED map are covered by C07's rules.")
-TECHNIQUE = 'CFG dominance + truth-table pruned reachability over compile()'
+TECHNIQUE = 'CFG dominance + truth-table pruned reachability over compile(); typestate abstract interpretation of compile() (path-sensitive dataflow over a finite per-module domain, rules/compile_ts.py)'
 
 
 def atoms_of(r):
@@ -314,5 +318,13 @@ def r5_failures_feed_the_guard(chk):
             chk.ob('C09.R5', o.key, o.ok, o.where, o.detail)
 
 
+
+def t1_typestate(chk):
+    """typestate analysis of compile() (rules/compile_ts.py): end-to-end bookkeeping invariants for an arbitrary
+    module over every outcome of every component call"""
+    from rules import compile_ts
+    compile_ts.ts_rule(chk, 'C09.T1', ['abort', 'drained', 'failed-pairing'])
+
+
 RULES = [r1_guard, r2_unprocessed_marking, r3_failed_only_forgotten_on_success, r4_write_loop_covers_all,
-         r5_failures_feed_the_guard]
+         r5_failures_feed_the_guard, t1_typestate]
